@@ -1,6 +1,8 @@
 (* C13 — metadata filters mean what the documented language says. *)
 From Coq Require Import ZArith.
 From Syz Require Import QParseTree QEval QSemProofs QParseProofs.
+(* the tables of the model are the ones regenerated from the Go sources on this run *)
+From Syz Require GenTablesOk.
 Open Scope N_scope.
 
 (* For every regular-expression oracle, every expression e of the documented operators
